@@ -58,6 +58,9 @@ def check(run: Run, prog: Program, model: Model, tier: str) -> None:
         " An optional key dropped from a relaxed table and an exact element list that a carried max_len re-opens in the validator are widenings too.")
     run.explanation += ' An empty closed table accepts only {}: W2-DICT reports keys added to it unless the pre-validation of that table reports undeclared keys.'
     run.rule_text = "obligations per (visit method, prop-set/shape) and mechanism; non-trivial = premises derived on interpreter paths"
+    from ..entry import entry_transparent
+    entry_transparent(run, prog, model, "validate", "VALIDATE-ENTRY")
+    entry_transparent(run, prog, model, "substitute", "SUBSTITUTE-ENTRY")
     sub = model.visitors["Substitutor"]
     # ---------------------------------------------------------------- W1 scalars
     for hook in SCALARS:
@@ -272,6 +275,12 @@ def check(run: Run, prog: Program, model: Model, tier: str) -> None:
 
 SU = "d42/substitution/_substitutor.py"
 MUTANTS = [
+    {"name": "validate() answers from the pinned value when it equals the value (seeded C05-K)", "rule": "VALIDATE-ENTRY",
+     "edits": [("d42/validation/__init__.py", "def validate(schema: GenericSchema, value: Any, **kwargs: Any) -> ValidationResult:\n    return schema.__accept__(_validator, value=value, **kwargs)\n",
+                "def validate(schema: GenericSchema, value: Any, **kwargs: Any) -> ValidationResult:\n    if not kwargs and schema.props.get(\"value\") == value:\n        return ValidationResult()\n    return schema.__accept__(_validator, value=value, **kwargs)\n")]},
+    {"name": "neutral: validate() binds the result to a local", "expect": "SILENT",
+     "edits": [("d42/validation/__init__.py", "def validate(schema: GenericSchema, value: Any, **kwargs: Any) -> ValidationResult:\n    return schema.__accept__(_validator, value=value, **kwargs)\n",
+                "def validate(schema: GenericSchema, value: Any, **kwargs: Any) -> ValidationResult:\n    result = schema.__accept__(_validator, value=value, **kwargs)\n    return result\n")]},
     {"name": "free-form branch taken for an empty closed table and its pre-validation returns early (seeded C05-I)", "rule": "W2-DICT",
      "edits": [("d42/substitution/_substitutor.py", "        if schema.props.keys is Nil or (len(schema.props.keys) == 1 and ... in schema.props.keys):", "        if schema.props.keys is Nil or all(is_ellipsis(key) for key in schema.props.keys):"),
                ("d42/substitution/_validator.py", "        if schema.props.keys is Nil:\n            return result\n\n        for key, (val, is_optional) in schema.props.keys.items():\n            if is_ellipsis(key):", "        if (schema.props.keys is Nil) or (not schema.props.keys):\n            return result\n\n        for key, (val, is_optional) in schema.props.keys.items():\n            if is_ellipsis(key):")]},
